@@ -8,7 +8,9 @@
 #include <mutex>
 #include <pthread.h>
 #include <sstream>
+#include <votca/tools/mutex.h>
 #include <votca/tools/verif_hook.h>
+static_assert(sizeof(votca::tools::Mutex) == sizeof(pthread_mutex_t), "tools::Mutex is expected to hold exactly one pthread_mutex_t");
 
 namespace vfsched {
 
@@ -43,6 +45,9 @@ static double pct_low = 0;
 static int dfs_preemptions = 0;
 static std::map<long, int> evaluated;
 std::function<void(const Result &)> on_deadlock;
+// a monitor verdict after which the run cannot sensibly continue (the real mutex does not behave like a mutex: the next
+// real lock could block the thread that holds the baton): report and leave the process
+std::function<void(const Result &, const std::string &, const std::string &)> on_fatal;
 static const size_t TRACE_CAP = 50000;
 
 const char *kind_name(int k) {
@@ -121,6 +126,14 @@ static int choose(int me) {
     res.decisions.push_back(pick);
   }
   return pick;
+}
+
+static void fatal(const std::string &key, const std::string &detail) {
+  viol(key, detail);
+  armed = false;
+  if (on_fatal) on_fatal(res, key, detail);
+  fprintf(stderr, "vfsched: %s and no handler\n", key.c_str());
+  _exit(3);
 }
 
 static void deadlock_now() {
@@ -293,10 +306,16 @@ extern "C" void votca_verif_event(int kind, const void *obj, long arg) {
       slots[me].state = RUNNABLE;
       locked[obj] = true;
       break;
-    case VV_UNLOCK_DONE:
+    case VV_UNLOCK_DONE: {
       locked[obj] = false;
+      // every other thread is parked outside Lock()/Unlock(): after Unlock() has returned the real mutex must be free
+      pthread_mutex_t *m = reinterpret_cast<pthread_mutex_t *>(const_cast<void *>(obj));
+      if (pthread_mutex_trylock(m) != 0)
+        fatal("mutex/still-held-after-unlock", "tools::Mutex::Unlock() returned but the underlying mutex is still locked");
+      pthread_mutex_unlock(m);
       yield(lk, me, true);
       break;
+    }
     case VV_THREAD_CREATE: {
       Slot n;
       n.state = NOTSTARTED; n.obj = obj; n.prio = rng.uni();
@@ -317,7 +336,16 @@ extern "C" void votca_verif_event(int kind, const void *obj, long arg) {
     case VV_JOIN_DONE:
       for (auto &t : slots) if (t.obj == obj) t.joined = true;
       break;
-    case VV_LOCK_ACQ:
+    case VV_LOCK_ACQ: {
+      // the scheduler admits a thread to Lock() only when its own model says the mutex is free, so the real pthread mutex
+      // is never contended here: probe it instead. After Lock() has returned the real mutex must be held.
+      pthread_mutex_t *m = reinterpret_cast<pthread_mutex_t *>(const_cast<void *>(obj));
+      if (pthread_mutex_trylock(m) == 0) {
+        pthread_mutex_unlock(m);
+        fatal("mutex/not-held-after-lock", "tools::Mutex::Lock() returned but the underlying mutex is not locked");
+      }
+      break;
+    }
     case VV_UNLOCK:
       break;
     default:
